@@ -396,3 +396,4 @@ from . import files_osu  # noqa: E402,F401
 from . import files_qua  # noqa: E402,F401
 from . import files_sm  # noqa: E402,F401
 from . import files_bms  # noqa: E402,F401
+from . import files_ojn  # noqa: E402,F401
